@@ -60,9 +60,14 @@ class Forest(object):
         """names the structure of `el` allows (table order), as the element itself reports them"""
         oc = getattr(el, 'ordered_children', None)
         cls = type(el).__name__
+        if cls == 'Segment' and getattr(el, 'allow_infinite_children', False):
+            # open-ended segments (Z-segments, or a last field of varying type) also take positions beyond the table
+            last = len(oc or ())
+            return list(oc or ()) + ['%s_%d' % (el.name, last + i) for i in (1, 2, 4, 7)]
         if oc:
             if cls in ('Message', 'Group'):
-                return [n for n in oc if n not in T.PSEUDO_SEGMENTS]
+                # a Z-segment is accepted by every message and group
+                return [n for n in oc if n not in T.PSEUDO_SEGMENTS] + ['ZXX']
             return list(oc)
         if cls in ('Field', 'Component') and el.datatype and T.is_base(el.version, el.datatype):
             return [el.datatype]
@@ -479,7 +484,11 @@ def snapshot(el):
         enc = el.to_er7()
     except Exception as e:
         enc = 'to_er7 raises ' + type(e).__name__
-    return (enc, listing(el))
+    try:
+        enc_t = el.to_er7(trailing_children=True)
+    except Exception as e:
+        enc_t = 'to_er7 raises ' + type(e).__name__
+    return (enc, listing(el), enc_t)
 
 
 def check_tree(e, owner, path='root', depth=0):
@@ -638,6 +647,20 @@ def histories(draw, cells, max_ops):
         ops += [{'op': 'add_x', 'parent': P, 'k': K, 'foreign': False} for _ in range(draw(st.integers(2, 3)))]
         ops.append({'op': 'assign_copy', 'parent': P, 'k': K, 'i': draw(st.integers(0, 1)), 'how': draw(st.sampled_from(['index', 'name'])),
                     'mismatch': draw(st.integers(0, 2))})
+    if draw(st.integers(0, 7)) == 0:
+        # scenario seed: an open-ended segment (a free Z-segment, or one inside a message) gets a low field, then a field
+        # further out is offered in a way that may be refused (other level / version) or accepted
+        if draw(st.booleans()):
+            ops.append({'op': 'new', 'cls': 'Segment', 'name_k': -1, 'lvl': draw(st.sampled_from([TOL, STRICT])), 'ver_k': 0, 'val_k': None})
+            P = {'r': 3, 'p': []}
+        else:
+            R0 = draw(st.integers(0, 2))
+            ops.append({'op': 'add_x', 'parent': {'r': R0, 'p': []}, 'k': -1, 'foreign': False})
+            P = {'r': R0, 'p': [-1]}
+        ops.append({'op': 'add_x', 'parent': P, 'k': draw(st.integers(0, 1)), 'foreign': False})
+        for _ in range(draw(st.integers(1, 2))):
+            ops.append({'op': 'assign_copy', 'parent': P, 'k': draw(st.integers(1, 3)), 'i': 0, 'how': draw(st.sampled_from(['name', 'add'])),
+                        'mismatch': draw(st.integers(0, 2))})
     for op in drawn:
         if op['op'] == 'add_x_twice':       # two children of the same name: two plain operations
             ops += [dict(op, op='add_x', foreign=False), dict(op, op='add_x', foreign=False)]
